@@ -273,7 +273,7 @@ def specDescC (cs : List Char) (flat : Bytes) : Option Bytes :=
 def wbufHandleC (desc : String) (ps : List Pat) (w : Option WBC) (flat : Bytes) : String :=
   let bare := ps.any (fun p => match p with | .adv _ => true | _ => false)
   let spec := match specDescC desc.toList flat with
-    | some b => if bare then "?" else s!"all={hexOrDash b} **"
+    | some b => if bare then "?" else s!"all={hexOrDash b} r{b.length} **"
     | none => "?"
   match w with
   | none => "panic ## ?"
@@ -292,7 +292,7 @@ def wbufHandle (desc pat : String) : String :=
     | .notChunked =>
     let bare := ps.any (fun p => match p with | .adv _ => true | _ => false)
     let spec := match specDesc desc.toList with
-      | some b => if bare then "?" else s!"all={hexOrDash b} **"
+      | some b => if bare then "?" else s!"all={hexOrDash b} r{b.length} **"
       | none => "?"
     match buildDesc desc.toList with
     | .badOp => "bad-op"
@@ -311,9 +311,30 @@ structure SLog where
   tx : Bytes
   fin : Bool
   writing : Bool
-  other : List String   -- flags this property does not talk about
+  /-- h3 reset the stream with this code -/
+  rst : Option Nat := none
+  misuse : Bool := false
+  overlap : Bool := false
 deriving Repr
 
+/-- one flag of a stream token; `none` = not in the alphabet -/
+def applyFlag (l : SLog) (f : List Char) : Option SLog :=
+  match str f with
+  | "fin" => some { l with fin := true }
+  | "writing" => some { l with writing := true }
+  | "MISUSE" => some { l with misuse := true }
+  | "OVERLAP" => some { l with overlap := true }
+  | _ =>
+    match splitOnce '=' f with
+    | some (k, v) =>
+      (match str k, natOf v with
+       | "rst", some c => some { l with rst := some c }
+       -- `stop=`: h3 asked the peer to stop sending (receive side; C04 / C17 judge that)
+       | "stop", some _ => some l
+       | _, _ => none)
+    | none => none
+
+/-- `<sid>:tx=<hex>[,flag]…` -/
 def parseSLog (tok : String) : Option SLog :=
   match splitOnce ':' tok.toList with
   | none => none
@@ -322,12 +343,18 @@ def parseSLog (tok : String) : Option SLog :=
     | some sid, tx :: flags =>
       (match tx with
        | 't' :: 'x' :: '=' :: h =>
-         (hexOf h).map (fun b =>
-           { sid := sid, tx := b, fin := flags.contains "fin".toList,
-             writing := flags.contains "writing".toList,
-             other := (flags.filter (fun f => f != "fin".toList && f != "writing".toList)).map str })
+         (hexOf h).bind (fun b =>
+           flags.foldlM applyFlag ({ sid := sid, tx := b, fin := false, writing := false } : SLog))
        | _ => none)
     | _, _ => none
+
+/-- `key=[a,b,…]` -/
+def parseBracket (key : String) (tok : String) : Option (List String) :=
+  let pre := key ++ "=["
+  if tok.startsWith pre && tok.endsWith "]" then
+    let inner := ((tok.toList.drop pre.length).reverse.drop 1).reverse
+    some (if inner.isEmpty then [] else (splitC ',' inner).map str)
+  else none
 
 def renderViolation : Violation → String
   | .truncated => "truncated"
@@ -341,9 +368,69 @@ def renderViolation : Violation → String
   | .badPayload ty => s!"bad-payload({ty})"
   | .criticalClosed => "critical-stream-closed"
   | .notOurStream => "not-our-stream"
+  | .criticalReset => "critical-stream-reset"
+  | .duplicateCritical ty => s!"second-critical-stream({ty})"
+  | .writeAfterEnd => "write-after-end"
+  | .overlappingWrite => "overlapping-write"
 
-def verdict (cx : Ctx) (ls : List SLog) : String :=
-  match ls.findSome? (fun l => (checkStream cx l.sid l.tx l.fin).map (fun v => (l.sid, v))) with
+/-- what excuses a stream from holding whole frames although nothing is being written on it, as
+    far as it follows from the case line: the peer's STOP_SENDING (`x<sid>:<code>`), the peer
+    closing the connection / a timeout (`C<code>`, `T`: every stream), a call abandoned in
+    mid-write (`<task>.kill`: the task's stream; `conn` / `drv` / `snd`: every stream) — R-14 -/
+structure Cuts where
+  all : Bool := false
+  sids : List Nat := []
+deriving Repr
+
+def taskSid (task : List Char) : Option Nat :=
+  match task with
+  | 'q' :: r => natOf (r.filter Char.isDigit)
+  | _ => none
+
+def cutsOfOp (c : Cuts) (op : String) : Cuts :=
+  match op.toList with
+  | 'x' :: r =>
+    (match splitOnce ':' r with
+     | some (sid, _) => (match natOf sid with | some n => { c with sids := n :: c.sids } | none => c)
+     | none => c)
+  | 'T' :: [] => { c with all := true }
+  | 'C' :: r => if (natOf r).isSome then { c with all := true } else c
+  | cs =>
+    match splitOnce '.' cs with
+    | some (task, cmd) =>
+      if cmd == "kill".toList || cmd == "kill?".toList then
+        (match taskSid task with
+         | some n => { c with sids := n :: c.sids }
+         | none => { c with all := true })
+      else c
+    | none => c
+
+def cutsOf (ops : List String) : Cuts := ops.foldl cutsOfOp {}
+
+/-- the streams a pending call keeps busy: `q<sid>[s].<cmd>` its stream, a call of `conn` / `drv`
+    (build, shutdown, accept's GOAWAY) the endpoint's own unidirectional streams, `snd.R` the
+    newest request stream -/
+def busyBy (cx : Ctx) (pending : List String) (ls : List SLog) (sid : Nat) : Bool :=
+  pending.any (fun p =>
+    match splitOnce '.' p.toList with
+    | none => true
+    | some (task, _) =>
+      match taskSid task with
+      | some n => n == sid
+      | none =>
+        if task == "snd".toList then
+          sid % 4 == 0 && ls.all (fun l => l.sid % 4 != 0 || l.sid ≤ sid)
+        else ownUni cx sid)
+
+def obsOf (cx : Ctx) (cuts : Cuts) (closed : Bool) (pending : List String) (ls : List SLog)
+    (l : SLog) : Obs :=
+  { sid := l.sid, tx := l.tx, fin := l.fin,
+    busy := l.writing || busyBy cx pending ls l.sid,
+    cut := cuts.all || closed || cuts.sids.contains l.sid,
+    rst := l.rst.isSome, misuse := l.misuse, overlap := l.overlap }
+
+def verdict (cx : Ctx) (cuts : Cuts) (closed : Bool) (pending : List String) (ls : List SLog) : String :=
+  match checkEndpoint cx (ls.map (obsOf cx cuts closed pending ls)) with
   | none => "valid"
   | some (sid, v) => s!"INVALID:{sid}:{renderViolation v}"
 
@@ -423,14 +510,18 @@ inductive Mode where
 deriving DecidableEq
 
 def renderStreams (mode : Mode) (ls : List SLog) : List String :=
-  (ls.filter (fun l => !l.tx.isEmpty || l.fin || l.writing)).map (fun l =>
+  (ls.filter (fun l => !l.tx.isEmpty || l.fin || l.writing || l.rst.isSome || l.misuse || l.overlap)).map (fun l =>
     let body := match mode with
       | .shape => s!"{l.sid}:sh={shapeStream l.sid l.tx}"
       | .literal => s!"{l.sid}:tx={toHex l.tx}"
-    body ++ (if l.fin then ",fin" else "") ++ (if l.writing then ",writing" else ""))
+    body ++ (if l.fin then ",fin" else "") ++
+      (match l.rst with | some c => s!",rst={c}" | none => "") ++
+      (if l.misuse then ",MISUSE" else "") ++ (if l.overlap then ",OVERLAP" else "") ++
+      (if l.writing then ",writing" else ""))
 
-def renderAll (mode : Mode) (cx : Ctx) (ls : List SLog) (pending : String) : String :=
-  verdict cx ls ++ " | " ++ " ".intercalate (renderStreams mode ls ++ [pending])
+def renderAll (mode : Mode) (cx : Ctx) (cuts : Cuts) (closed : Bool) (ls : List SLog) (pending : String) : String :=
+  verdict cx cuts closed ((parseBracket "pending" pending).getD ["?"]) ls ++ " | " ++
+    " ".intercalate (renderStreams mode ls ++ [pending])
 
 /-! ### configuration -/
 
@@ -481,15 +572,46 @@ def effectiveCfg (server : Bool) (c : Config) : Config :=
 
 /-! ### `outlog`: the harness' summary judged by the specification and re-rendered -/
 
+/-- a token of the harness' summary, or `none` when it is not in the alphabet -/
+inductive SumTok where
+  | stream (l : SLog)
+  | closed (codes : List String)
+  | pending (names : List String)
+  | other
+
+def parseSumTok (tok : String) : Option SumTok :=
+  match parseSLog tok with
+  | some l => some (.stream l)
+  | none =>
+    match parseBracket "closed" tok with
+    | some c => some (.closed c)
+    | none =>
+      match parseBracket "pending" tok with
+      | some p => some (.pending p)
+      | none =>
+        if (parseBracket "dgrams" tok).isSome || (parseBracket "fired" tok).isSome then some .other
+        else none
+
+/-- `outlog <role> <cfg> [<ops of the case line> @@] <summary tokens>`.  A token outside the
+    alphabet is never skipped: `BAD:unknown-token(<tok>)`. -/
 def outlogHandle (role cfgS : String) (toks : List String) : String :=
   match parseCfg cfgS with
   | none => "bad-op"
   | some sc =>
+    if role != "server" && role != "client" then "bad-op" else
     let server := role == "server"
     let cx : Ctx := { server := server, wt := (effectiveCfg server sc.cfg).wt }
-    let ls := toks.filterMap parseSLog
-    let pending := (toks.find? (·.startsWith "pending=")).getD "pending=[]"
-    renderAll (modeOf sc) cx ls pending
+    let (ops, sumToks) := match toks.span (· != "@@") with
+      | (a, _ :: b) => (a, b)
+      | (a, []) => ([], a)
+    match sumToks.find? (fun t => (parseSumTok t).isNone) with
+    | some t => s!"BAD:unknown-token({t})"
+    | none =>
+      let parsed := sumToks.filterMap parseSumTok
+      let ls := parsed.filterMap (fun t => match t with | .stream l => some l | _ => none)
+      let closed := parsed.any (fun t => match t with | .closed (_ :: _) => true | _ => false)
+      let pending := (sumToks.find? (·.startsWith "pending=")).getD "pending=[]"
+      renderAll (modeOf sc) cx (cutsOf ops) closed ls pending
 
 /-! ### `out`: the scenario replayed on the model -/
 
@@ -925,7 +1047,7 @@ def logsOf (s : Sc) : List SLog :=
   | none => []
   | some m =>
     let ls := m.streams.map (fun e =>
-      ({ sid := e.1, tx := e.2.log, fin := e.2.fin, writing := e.2.cur.isSome, other := [] } : SLog))
+      ({ sid := e.1, tx := e.2.log, fin := e.2.fin, writing := e.2.cur.isSome } : SLog))
     -- by stream id, as the harness prints them
     (ls.foldr (fun l acc =>
       let (a, b) := acc.span (fun x => x.sid < l.sid)
@@ -951,7 +1073,7 @@ def outHandle (role cfgS : String) (ops : List String) : String :=
     | .error e => e
     | .ok s =>
       let cx : Ctx := { server := server, wt := s.cfg.wt }
-      renderAll (modeOf sc) cx (logsOf s) (pendingOf s) ++ " ## valid **"
+      renderAll (modeOf sc) cx (cutsOf ops) false (logsOf s) (pendingOf s) ++ " ## valid **"
 
 def handle : List String → String
   | ["wbuf", desc, pat] => wbufHandle desc pat
